@@ -198,6 +198,16 @@ def flatten_ix(tup, factors):
     return r
 
 
+def align_factors(tup, f_from, f_to):
+    """re-express an index tuple over the factors f_from as a tuple over f_to when both lists agree up to unit-size factors"""
+    a = [(x, f) for x, f in zip(tup, f_from) if not known_eq(f.size, 1)]
+    b = [f for f in f_to if not known_eq(f.size, 1)]
+    if len(a) != len(b) or not all(known_eq(x[1].size, y.size) for x, y in zip(a, b)):
+        return None
+    it = iter(a)
+    return tuple(0 if known_eq(f.size, 1) else next(it)[0] for f in f_to)
+
+
 def unflatten(i, factors):
     """flat index -> tuple of factor indices (div/mod ; exact, but hard for the solver when symbolic)"""
     if isinstance(i, int) and i == 0:
@@ -210,6 +220,40 @@ def unflatten(i, factors):
         rem = rem / s if is_sym(rem) or is_sym(s) else rem // s
     out.append(rem)
     return tuple(reversed(out))
+
+
+def opaque_int_tensor(axes, lo, hi, name='ix', lib='torch', dtype='int64'):
+    """an integer tensor with unknown entries in [lo, hi): entry = UF(flat indices).  The range fact of an entry is added to the
+    path condition whenever that entry is looked at (instantiation on use), guarded by the entry being inside the tensor."""
+    axes = list(axes)
+    n = len(axes)
+    f = z3.Function('%s!%d' % (name, next(_ids)), *([z3.IntSort()] * max(n, 1) + [z3.IntSort()]))
+
+    def ival(idx):
+        args = [to_int(flatten_ix(i, ax.factors)) if len(ax.factors) > 1 else to_int(i[0]) for i, ax in zip(idx, axes)] if n else [z3.IntVal(0)]
+        v = f(*args)
+        inb = [z3.And(to_int(x) >= 0, to_int(x) < to_int(fc.size)) for i, ax in zip(idx, axes) for x, fc in zip(i, ax.factors)]
+        fact = z3.And(v >= to_int(lo), v < to_int(hi))
+        ex().pc.add(z3.Implies(z3.And(*inb), fact) if inb else fact)
+        return v
+    t = STensor(axes, dtype, lambda idx: Term.of(z3.ToReal(ival(idx))), lib=lib, ival=ival)
+    t.name = name
+    return t
+
+
+def int_entry(t, idx):
+    """symbolic value (z3 Int) of the entry idx of an integer tensor"""
+    if t.ival is None:
+        raise OutOfSubset('integer values of tensor %s are not tracked' % (t.name or t.tid))
+    return t.ival([t._norm_ix(a, i) for a, i in zip(t.axes, idx)])
+
+
+def _iv(t, srcmap):
+    """integer-value function of a tensor obtained from t by an index map"""
+    if t.ival is None:
+        return None
+    f = t.ival        # the values at this moment (a later in-place write to t replaces t.ival)
+    return lambda idx: f([t._norm_ix(a, i) for a, i in zip(t.axes, srcmap(idx))])
 
 
 # ------------------------------------------------------------------------------------------------
@@ -239,7 +283,10 @@ def to_int(i):
 def const_tensor(shape, value, dtype, lib='torch'):
     axes = [Axis(sz(s)) for s in shape]
     v = Term.of(value)
-    return STensor(axes, dtype, lambda idx: v, lib=lib)
+    iv = None
+    if dtype in INTS and isinstance(value, int) and not isinstance(value, bool):
+        iv = lambda idx: z3.IntVal(value)
+    return STensor(axes, dtype, lambda idx: v, lib=lib, ival=iv)
 
 
 # ------------------------------------------------------------------------------------------------
@@ -263,6 +310,23 @@ def require(cond, cls='RuntimeError', msg=''):
     if cond is True:
         return
     if cond is False or not ex().decide(cond):
+        raise PyRaise(cls, msg, origin='torch')
+
+
+def require_for_all(cond, bounds, cls, msg):
+    """torch/numpy-level precondition over every entry of an index tensor (cond mentions fresh position variables constrained by
+    `bounds`): proved -> nothing happens; refuted by the solver -> one path on which a violating entry exists (its witness stays in
+    the path condition, so that the model of the failing obligation shows it) raises, the other continues; unknown -> out of subset"""
+    pc = ex().pc
+    r = pc._check(z3.Not(cond), *bounds)
+    if r == z3.unsat:
+        return
+    if r == z3.unknown:
+        raise OutOfSubset('cannot decide an index-range precondition: %s' % msg)
+    if ex().decide(terms.fresh_bool('violating_entry')):
+        for b in bounds:
+            pc.add(b)
+        pc.add(z3.Not(cond))
         raise PyRaise(cls, msg, origin='torch')
 
 
@@ -510,12 +574,15 @@ def permute(t, dims):
         raise PyRaise('RuntimeError', 'permute: repeated dim', origin='torch')
     axes = [t.axes[d] for d in nd]
 
-    def val(idx):
+    def srcmap(idx):
         src = [None] * n
         for k, d in enumerate(nd):
             src[d] = idx[k]
-        return t.at(src)
-    out = STensor(axes, t.dtype, val if t._val else None, lib=t.lib, contiguous=(nd == list(range(n))) and t.contiguous)
+        return src
+
+    def val(idx):
+        return t.at(srcmap(idx))
+    out = STensor(axes, t.dtype, val if t._val else None, lib=t.lib, contiguous=(nd == list(range(n))) and t.contiguous, ival=_iv(t, srcmap))
     out.ghost = _permute_ghost(t, nd)
     return derive(out, t, view_of=t)
 
@@ -525,6 +592,8 @@ def _permute_ghost(t, nd):
     if 'fro2' in t.ghost:
         g['fro2'] = t.ghost['fro2']
     if len(nd) == 2 and nd == [1, 0]:
+        if t.ghost.get('perm'):
+            g['perm'] = True
         for a, b in (('orth_cols', 'orth_rows'), ('orth_rows', 'orth_cols')):
             if t.ghost.get(a):
                 g[b] = True
@@ -559,7 +628,7 @@ def unsqueeze(t, dim):
 
     def val(idx):
         return t.at(idx[:dim] + idx[dim + 1:])
-    out = STensor(axes, t.dtype, val if t._val else None, lib=t.lib, contiguous=t.contiguous)
+    out = STensor(axes, t.dtype, val if t._val else None, lib=t.lib, contiguous=t.contiguous, ival=_iv(t, lambda idx: idx[:dim] + idx[dim + 1:]))
     if 'fro2' in t.ghost:
         out.ghost['fro2'] = t.ghost['fro2']
     return derive(out, t, view_of=t)
@@ -587,12 +656,15 @@ def squeeze(t, dim=None):
     keep = [k for k in range(n) if k not in drop]
     axes = [t.axes[k] for k in keep]
 
-    def val(idx):
+    def srcmap(idx):
         src = [(0,) * len(t.axes[k].factors) for k in range(n)]
         for j, k in enumerate(keep):
             src[k] = idx[j]
-        return t.at(src)
-    out = STensor(axes, t.dtype, val if t._val else None, lib=t.lib, contiguous=t.contiguous)
+        return src
+
+    def val(idx):
+        return t.at(srcmap(idx))
+    out = STensor(axes, t.dtype, val if t._val else None, lib=t.lib, contiguous=t.contiguous, ival=_iv(t, srcmap))
     if 'fro2' in t.ghost:
         out.ghost['fro2'] = t.ghost['fro2']
     return derive(out, t, view_of=t)
@@ -636,12 +708,14 @@ def reshape(t, shape):
     # grouping
     new_axes, mapping = _regroup(src, [sz(s) for s in shape])
 
-    def val(idx):
+    def srcmap(idx):
         fmap = mapping(idx)
-        srcidx = [tuple(fmap[f.id] for f in a.factors) for a in t.axes]
-        return t.at(srcidx)
+        return [tuple(fmap[f.id] for f in a.factors) for a in t.axes]
+
+    def val(idx):
+        return t.at(srcmap(idx))
     # a strided input is either copied or (compatible strides) viewed: contiguity of the result is then unknown
-    out = STensor(new_axes, t.dtype, val if t._val else None, lib=t.lib, contiguous=bool(t.contiguous))
+    out = STensor(new_axes, t.dtype, val if t._val else None, lib=t.lib, contiguous=bool(t.contiguous), ival=_iv(t, srcmap))
     from . import gauge
     gauge.on_reshape(t, out)
     if t.contiguous:
@@ -896,9 +970,7 @@ def getitem(t, index):
                     jv = [x for tup in pos for x in tup]
                     bounds = [z3.And(x >= 0, x < to_int(f.size)) for a, tup in zip(i.axes, pos) for x, f in zip(tup, a.factors)]
                     cond = z3.And(chk >= -to_int(ax.size), chk < to_int(ax.size))
-                    if not ex().pc.implied(cond, bounds):
-                        ex().note_unproved('index_range', 'advanced index not provably within [-%s,%s)' % (ax.size, ax.size))
-                        require(fresh_opaque_bool('index_in_range'), 'IndexError', 'index out of range')
+                    require_for_all(cond, bounds, 'IndexError', 'index out of range for dimension with size %s' % (ax.size,))
                 for a in i.axes:
                     axes.append(a)
                 plan.append(('adv', out_k, i))
@@ -931,7 +1003,7 @@ def getitem(t, index):
             return getter(src)
         return val
     out = STensor(axes, t.dtype, val_gen(t.at) if t._val else None, lib=t.lib, contiguous=False,
-                  ival=val_gen(lambda src: t.ival([t._norm_ix(a, i) for a, i in zip(t.axes, src)])) if t.ival else None)
+                  ival=val_gen(lambda src, f=t.ival: f([t._norm_ix(a, i) for a, i in zip(t.axes, src)])) if t.ival else None)
     if hasattr(t, 'int_range'):
         out.int_range = t.int_range
     if adv is None and len(full) == n:
@@ -1033,6 +1105,21 @@ def setitem(t, index, value):
 
         def rhs(vidx):
             return sv
+    if t.ival is not None:
+        # integer tensors: only `t[i0, i1, ...] = integer` keeps the integer values tracked
+        vi = value.expr if isinstance(value, SymScalar) else value
+        if isinstance(vi, STensor) and vi.ndim == 0 and vi.ival is not None:
+            vi = vi.ival([])
+        if all(s_[0] == 'int' for s_ in sel) and ((isinstance(vi, int) and not isinstance(vi, bool)) or (is_sym(vi) and vi.is_int())):
+            old_iv = t.ival
+            pos = [to_int(s_[1]) for s_ in sel]
+            t.ival = lambda idx: z3.If(z3.And(*[to_int(flatten_ix(i, a.factors) if len(i) > 1 else i[0]) == p_ for i, a, p_ in zip(idx, t.axes, pos)]), to_int(vi), old_iv(idx))
+            for m in t.storage.members:
+                if m is not t and m.ival is not None:
+                    m.ival = None        # aliases: integer values no longer tracked
+        else:
+            for m in t.storage.members:
+                m.ival = None
     old = t._val
     if old is None:
         return
@@ -1175,6 +1262,9 @@ def binary(op, a, b):
             def val(idx):
                 return f(a.at(ma(idx)), b.at(mb(idx)))
         out = STensor(axes, dt, val, lib=a.lib)
+        if dt in INTS and a.ival is not None and b.ival is not None and op in ('add', 'sub', 'mul'):
+            fi = {'add': lambda x, y: x + y, 'sub': lambda x, y: x - y, 'mul': lambda x, y: x * y}[op]
+            out.ival = lambda idx: fi(int_entry(a, ma(idx)), int_entry(b, mb(idx)))
         return derive(out, a, b)
     if isinstance(a, STensor):
         t, s, left = a, b, True
@@ -1193,6 +1283,11 @@ def binary(op, a, b):
             def val(idx):
                 return f(st, t.at(idx))
     out = STensor(list(t.axes), dt, val, lib=t.lib, contiguous=t.contiguous)
+    if dt in INTS and t.ival is not None and op in ('add', 'sub', 'mul'):
+        si = s.expr if isinstance(s, SymScalar) else s
+        if (isinstance(si, int) and not isinstance(si, bool)) or (is_sym(si) and si.is_int()):
+            fi = {'add': lambda x, y: x + y, 'sub': lambda x, y: x - y, 'mul': lambda x, y: x * y}[op]
+            out.ival = (lambda idx: fi(t.ival(idx), to_int(si))) if left else (lambda idx: fi(to_int(si), t.ival(idx)))
     # multiplying by a scalar scales fro2 ; keep only what is certainly right
     return derive(out, t)
 
@@ -1388,25 +1483,61 @@ def cat(tensors, dim=0):
     for t in tensors:
         offs.append(offs[-1] + t.axes[d].size)
     axes = list(tensors[0].axes)
+    for a in range(n):
+        # the other axes: keep the finest factor structure among the inputs (their sizes agree)
+        if a != d:
+            axes[a] = max([t.axes[a] for t in tensors], key=lambda x: len([f for f in x.factors if not known_eq(f.size, 1)]))
     axes[d] = Axis(sz(offs[-1]))
     dt = tensors[0].dtype
     for t in tensors[1:]:
         dt = promote(dt, t.dtype)
     opaque = any(t._val is None for t in tensors)
 
+    def conv(k, idx):
+        """index of tensor k for the result index idx (the other axes may be factored differently: same factor sizes -> positional)"""
+        src = list(idx)
+        for a in range(n):
+            if a == d or tensors[k].axes[a] is axes[a]:
+                continue
+            f0, fk = axes[a].factors, tensors[k].axes[a].factors
+            if len(f0) == len(fk) and all(known_eq(x.size, y.size) for x, y in zip(f0, fk)):
+                continue
+            al = align_factors(idx[a], f0, fk)
+            src[a] = al if al is not None else (flatten_ix(idx[a], f0) if len(f0) > 1 else idx[a][0])
+        src[d] = z3.simplify(to_int(idx[d][0]) - to_int(offs[k]))
+        return src
+
     def val(idx):
         j = to_int(idx[d][0])
         r = None
         for k in range(len(tensors) - 1, -1, -1):
-            src = list(idx)
-            src[d] = z3.simplify(j - to_int(offs[k]))
-            v = tensors[k].at(src)
+            if known_eq(tensors[k].axes[d].size, 0):
+                continue
+            v = tensors[k].at(conv(k, idx))
             if r is None:
                 r = v
             else:
                 r = ite(j < to_int(offs[k + 1]), v, r)
-        return r
-    out = STensor(axes, dt, None if opaque else val, lib=tensors[0].lib)
+        return r if r is not None else Term.zero()
+    iv = None
+    if all(t.ival is not None for t in tensors):
+        def iv(idx):
+            j = to_int(idx[d][0])
+            r = None
+            for k in range(len(tensors) - 1, -1, -1):
+                if known_eq(tensors[k].axes[d].size, 0):
+                    continue
+                if not is_sym(idx[d][0]):
+                    # concrete position: pick the block directly when the offsets are concrete too
+                    lo_, hi_ = offs[k], offs[k + 1]
+                    if not is_sym(lo_) and not is_sym(hi_):
+                        if lo_ <= idx[d][0] < hi_:
+                            return int_entry(tensors[k], conv(k, idx))
+                        continue
+                v = int_entry(tensors[k], conv(k, idx))
+                r = v if r is None else z3.If(j < to_int(offs[k + 1]), v, r)
+            return r if r is not None else z3.IntVal(0)
+    out = STensor(axes, dt, None if opaque else val, lib=tensors[0].lib, ival=iv)
     return derive(out, *tensors)
 
 
@@ -1706,6 +1837,13 @@ def matmul(a, b):
     if a.ndim == 2 and b.ndim == 2:
         if not known_eq(a.axes[1].size, b.axes[0].size):
             require(to_int(a.axes[1].size) == to_int(b.axes[0].size), 'RuntimeError', 'mat1 and mat2 shapes cannot be multiplied')
+        if a.ghost.get('perm') and b.ival is not None:
+            # (permutation matrix) @ B: the rows of the product are the rows of B in some order
+            sigma = opaque_int_tensor([a.axes[0]], 0, b.axes[0].size, 'sigma')
+            out = opaque_with_axes([a.axes[0], b.axes[1]], promote(a.dtype, b.dtype), 'permuted')
+            out._val = None
+            out.ival = lambda idx: b.ival([b._norm_ix(b.axes[0], sigma.ival([idx[0]])), idx[1]])
+            return derive(out, a, b)
         out = contract([a, b], [['i', 'k'], ['k', 'j']], ['i', 'j'], contiguous=True)
         _matmul_ghost(a, b, out)
         return out
@@ -1830,5 +1968,11 @@ def kron2(a, b):
         ia = [tuple(t[:len(xa.factors)]) for t, xa in zip(idx, a.axes)]
         ib = [tuple(t[len(xa.factors):]) for t, xa in zip(idx, a.axes)]
         return a.at(ia) * b.at(ib)
-    out = STensor(axes, promote(a.dtype, b.dtype), val if (a._val and b._val) else None)
+    iv = None
+    if a.ival is not None and b.ival is not None:
+        def iv(idx):
+            ia = [tuple(t[:len(xa.factors)]) for t, xa in zip(idx, a.axes)]
+            ib = [tuple(t[len(xa.factors):]) for t, xa in zip(idx, a.axes)]
+            return a.ival(ia) * b.ival(ib)
+    out = STensor(axes, promote(a.dtype, b.dtype), val if (a._val and b._val) else None, ival=iv)
     return derive(out, a, b)
